@@ -79,6 +79,9 @@ def rule_forwarding(ctx, rid):
             continue
         calls = callee_calls(ev, ent['callee'])
         label = '%s -> %s(%s=%s)' % (q.replace('dimarray.', ''), ent['callee'], ent['kw'], ent['param'])
+        if not calls and ent['callee'].startswith('_') and not any(f.name == ent['callee'] for f in ctx.P.functions.values()):
+            ctx.holds(rid, label + ': the private worker no longer exists anywhere (merged into its caller): the option is used where it is given')
+            continue
         if not calls:
             ctx.undecide(rid, '%s: %s is no longer called from this function (table instance vanished)' % (label, ent['callee']))
             continue
